@@ -13,9 +13,9 @@
 //! ORACLE (from the property statement, nothing of the driver involved): with T = Murmur3 token of the key bytes
 //! (harness reference implementation), R = replicas of T by the brute-force placement rules, for each key
 //!  * the first EXECUTE frame carrying that key arrived at a node in R that the load-balancing configuration permits: with a preferred datacenter (`pref`) one of
-//!    R in that datacenter when there is one; otherwise, with datacenter failover permitted (`fo=1`, consistency QUORUM)
-//!    any node of R, and without failover (the default) no replica is permitted and the request must stay inside the
-//!    preferred datacenter,
+//!    R in that datacenter when there is one; otherwise, with datacenter failover permitted (`fo=1`: `permit_dc_failover`,
+//!    the consistency plays no part) any node of R, and without failover (the default) no replica is permitted and the
+//!    request must stay inside the preferred datacenter,
 //!  * on a sharded node, on a connection whose server-side shard is `((T + 2^63) << msb) * nr_shards >> 64` (every
 //!    node had a live connection on every shard before the first request was sent). `nat=1` puts a port-shifting NAT
 //!    between driver and nodes (a connection aimed at shard s lands on s+1; pools fill slowly or never): the shard
@@ -50,6 +50,23 @@
 //!  * `spref=<dc>` `svia=<p|l>`  the STATEMENT (and the batch) names its own execution profile (`p`) or load-balancing policy
 //!                  (`l`) preferring datacenter `spref`; the session's `pref` (none, or another datacenter) must then not be
 //!                  what the request is routed by (`session.rs:1797-1800`, `execution.rs:139-142`, `pager.rs:148-161`).
+//!
+//! Round 9 words (audit round 6; defaults = the behaviour above):
+//!  * `down=<node>` after the pools are full and the statement is prepared, that node STOPS (no listener, every connection
+//!                  dropped) while the other nodes keep listing it; the requests start once the driver's own
+//!                  `Node::is_connected()` of it is false. It is then a replica that is NOT reachable: the first frame of
+//!                  every key must arrive at a REACHABLE permitted replica (the first reachable one in ring order when
+//!                  routed as an LWT) on its owning shard; with a preference and no reachable local replica (no failover)
+//!                  the frame stays in the datacenter. `hit` in the output = keys that had the stopped node as a replica.
+//!  * `lvia=<p|s>`  (with `lwt=1`) where the serial consistency comes from: the execution profile (`p`) or the STATEMENT's
+//!                  own `set_consistency` (`s`; for `api=b` the batch's) - `StatementConfig::consistency` overrides the
+//!                  profile in two separate implementations, execution.rs:129-131 (execute / batch) and pager.rs:177-179
+//!                  (execute_iter, first and later pages). The oracle is the `lwt=1` one: primary replica first.
+//!  * `schema=0`    `SessionBuilder::fetch_schema_metadata(false)`: the driver knows no keyspace strategy, so a request
+//!                  whose RoutingInfo carries token and table is routed token-UNAWARE (default.rs:1163-1167). NOT judged
+//!                  (the property's "replica of the key's token" needs a placement the driver was told not to fetch):
+//!                  every request must be sent; `replica=` in the output counts first frames that happened to land on a
+//!                  replica. Recorded so that the behaviour is on file; see `partial`.
 use super::common::*;
 use crate::mockcluster::*;
 use crate::mocknode::{Parsed, ShardMode};
@@ -160,6 +177,47 @@ pub fn generate(rng: &mut Rng, tier: Tier, emit: &mut dyn FnMut(String)) {
                 1 => format!("{} pref={} fo=0 seed={} keys={} api=b bfirst=p", two_dc(rng), 1 + rng.below(2), seed, keys),
                 _ => format!("{} pref=0 fo=0 seed={} keys={} api=b bfirst=p lwt=1", one_dc(rng, 1), seed, keys),
             },
+        };
+        emit(format!("e2e route {}", line));
+    }
+    // round 9: an unreachable replica (`down=`), the statement's own serial consistency (`lvia=s`), no schema metadata
+    let n_r9 = if tier == Tier::Quick { 20 } else { 160 };
+    for i in 0..n_r9 {
+        let sh = *rng.pick(&[0u64, 2, 3, 4]);
+        let seed = rng.below(1 << 32);
+        let keys = if tier == Tier::Quick { 12 } else { 20 };
+        let vn = *rng.pick(&[1u64, 4]);
+        let api = ["u", "i", "b"][i % 3];
+        let bf = if api == "b" { " bfirst=p" } else { "" };
+        let line = match i % 10 {
+            // one datacenter, RF >= 2: every key keeps a reachable replica
+            0 | 1 | 2 => {
+                let nodes = 3 + rng.below(2);
+                format!("n={} dcs=1 racks=1 sh={} mix=0 nat=0 msb=12 vn={} st=S{} pref=0 fo=0 seed={} keys={} api={}{} down={}", nodes, sh, vn, 2 + rng.below(nodes - 2), seed, keys, api, bf, rng.below(nodes))
+            }
+            // two datacenters of two nodes with a preference: the stopped node is a local or a remote replica
+            3 | 4 => {
+                let st = if rng.bool() { format!("N{}", 1 + rng.below(2)) } else { format!("S{}", 2 + rng.below(3)) };
+                format!("n=4 dcs=2 racks=1 sh={} mix=0 nat=0 msb=12 vn={} st={} pref={} fo={} seed={} keys={} api={}{} down={}", sh, vn, st, 1 + rng.below(2), rng.below(2), seed, keys, api, bf, rng.below(4))
+            }
+            // routed as an LWT with the primary replica of some keys stopped: the first REACHABLE replica in ring order
+            5 => {
+                let nodes = 3 + rng.below(2);
+                format!("n={} dcs=1 racks=1 sh={} mix=0 nat=0 msb=12 vn={} st=S{} pref=0 fo=0 seed={} keys={} api={}{} lwt=1 lvia={} down={}", nodes, sh, vn, 2 + rng.below(nodes - 2), seed, keys, api, bf, if rng.bool() { "s" } else { "p" }, rng.below(nodes))
+            }
+            // the statement's own serial consistency: execute / execute_iter / batch, and pages 2+ of the pager
+            6 | 7 => {
+                let nodes = 2 + rng.below(3);
+                format!("n={} dcs=1 racks=1 sh={} mix=0 nat=0 msb=12 vn={} st=S{} pref=0 fo=0 seed={} keys={} api={}{} lwt=1 lvia=s", nodes, sh, vn, 2 + rng.below(nodes - 1), seed, keys, api, bf)
+            }
+            8 => {
+                let nodes = 2 + rng.below(3);
+                format!("n={} dcs=1 racks=1 sh={} mix=0 nat=0 msb=12 vn={} st=S{} pref=0 fo=0 seed={} keys={} api=i stmt=sel lwt=1 lvia=s pages=2", nodes, sh, vn, 2 + rng.below(nodes - 1), seed, keys)
+            }
+            _ => {
+                let nodes = 3 + rng.below(2);
+                format!("n={} dcs=1 racks=1 sh={} mix=0 nat=0 msb=12 vn={} st=S1 pref=0 fo=0 seed={} keys={} api={}{} schema=0", nodes, sh, vn, seed, keys, api, bf)
+            }
         };
         emit(format!("e2e route {}", line));
     }
@@ -290,6 +348,27 @@ pub fn run(words: &[&str], ctx: &mut Ctx) -> String {
     };
     let Some(lwt) = p.num_or("lwt", 0) else { return "bad-case".into() };
     let Some(tab_known) = p.num_or("tab", 1) else { return "bad-case".into() };
+    // round 9 words: `down=<node>` / `lvia=<p|s>` / `schema=<1|0>` (see the module comment)
+    let down: Option<usize> = match p.str("down") {
+        None | Some("-") => None,
+        Some(d) => match d.parse::<usize>() {
+            Ok(d) if d < shape.nodes && shape.nodes >= 2 => Some(d),
+            _ => return "bad-case".into(),
+        },
+    };
+    let lvia_stmt = match p.str("lvia") {
+        None | Some("p") => false,
+        Some("s") => true,
+        _ => return "bad-case".into(),
+    };
+    let Some(schema) = p.num_or("schema", 1) else { return "bad-case".into() };
+    if schema > 1
+        || (lvia_stmt && lwt == 0)
+        || (down.is_some() && (p.num_or("pages", 1) != Some(1) || p.str("rs").is_some_and(|r| r != "-") || nat != 0))
+        || (schema == 0 && (p.str("rs").is_some_and(|r| r != "-") || nat != 0 || p.num_or("pages", 1) != Some(1)))
+    {
+        return "bad-case".into();
+    }
     let stmt_text: &'static str = match p.str("stmt") {
         None | Some("ins") => INSERT,
         Some("sel") => SELECT,
@@ -396,11 +475,18 @@ pub fn run(words: &[&str], ctx: &mut Ctx) -> String {
         });
         let cluster = MockCluster::start(topo, handler).await;
         let pref_dc = (session_pref > 0).then(|| Shape::dc_name(session_pref as usize - 1));
-        let session = match connect_with(&cluster, nat == 0, |b| match &pref_dc {
+        let session = match connect_with(&cluster, nat == 0, |b| {
+          // `schema=0`: `SessionBuilder::fetch_schema_metadata(false)` - the ClusterState holds no keyspace
+          let b = if schema == 0 { b.fetch_schema_metadata(false) } else { b };
+          match &pref_dc {
             None if lwt == 1 => {
-                // routed as an LWT: serial consistency (`RoutingInfo::should_route_as_lwt`)
+                // routed as an LWT: serial consistency (`RoutingInfo::should_route_as_lwt`) - on the profile, or
+                // (`lvia=s`) on the STATEMENT (`StatementConfig::consistency`, set below)
                 use scylla::client::execution_profile::ExecutionProfile;
-                let mut pb = ExecutionProfile::builder().consistency(scylla::statement::Consistency::Serial);
+                let mut pb = ExecutionProfile::builder();
+                if !lvia_stmt {
+                    pb = pb.consistency(scylla::statement::Consistency::Serial);
+                }
                 if pages == 2 {
                     // the default retry policy never retries at a serial consistency: the retry of page 2 (which is what
                     // reads the plan of the pages-2+ literal) needs a policy that moves on to the next target
@@ -414,10 +500,12 @@ pub fn run(words: &[&str], ctx: &mut Ctx) -> String {
                 use scylla::client::execution_profile::ExecutionProfile;
                 use scylla::policies::load_balancing::DefaultPolicy;
                 let lb = DefaultPolicy::builder().prefer_datacenter(dc.clone()).permit_dc_failover(true).build();
-                // datacenter failover is only possible at a non-local consistency
+                // (`is_datacenter_failover_possible`, default.rs:904-906, asks only for a preferred datacenter and
+                // `permit_dc_failover`; the consistency plays no part in it)
                 let profile = ExecutionProfile::builder().load_balancing_policy(lb).consistency(scylla::statement::Consistency::Quorum).build();
                 b.default_execution_profile_handle(profile.into_handle())
             }
+          }
         })
         .await
         {
@@ -457,7 +545,31 @@ pub fn run(words: &[&str], ctx: &mut Ctx) -> String {
             }
             batch.append_statement(ps.clone());
         }
+        if lvia_stmt {
+            // the STATEMENT's own consistency (`StatementConfig::consistency`) instead of the profile's: the override is
+            // implemented twice - execution.rs:129-131 (execute, batch) and pager.rs:177-179 (execute_iter, all pages)
+            ps.set_consistency(scylla::statement::Consistency::Serial);
+            batch.set_consistency(scylla::statement::Consistency::Serial);
+        }
         let ps = ps;
+        let mut down_hit = 0;
+        if let Some(d) = down {
+            // the node stops listening and drops every connection; the requests start only once the driver's own
+            // `Node::is_connected()` (what `DefaultPolicy::is_alive` reads) says so. The other nodes still list it as a
+            // peer, so it stays a replica of the metadata - an unreachable one.
+            cluster.stop_node(d).await;
+            let t0 = std::time::Instant::now();
+            loop {
+                let cs = session.get_cluster_state();
+                if cs.get_nodes_info().iter().any(|n| n.host_id.as_bytes() == &host_id_of(d) && !n.is_connected()) {
+                    break;
+                }
+                if t0.elapsed() > Duration::from_secs(10) {
+                    return "e2e-skip down-not-noticed".to_owned();
+                }
+                tokio::time::sleep(Duration::from_millis(5)).await;
+            }
+        }
         let mut failed = 0;
         let mut at_replica = 0;
         let mut at_shard = 0;
@@ -525,7 +637,26 @@ pub fn run(words: &[&str], ctx: &mut Ctx) -> String {
                 failed += 1;
             }
         }
-        if marks == 0 || tab_known == 0 || (api_batch && !bfirst_prepared) {
+        if schema == 0 && marks > 0 && tab_known == 1 && !(api_batch && !bfirst_prepared) {
+            // OBSERVATION, not judged: without schema metadata the ClusterState knows no keyspace
+            // (`query_keyspaces`, fetching.rs:686), `TokenWithStrategy::new` (default.rs:1163-1167) finds no strategy
+            // and the request is routed token-UNAWARE although its RoutingInfo carries token and table. Recorded:
+            // how many first frames happened to land on a replica of the (unknown to the driver) placement.
+            let frames: Vec<Req> = cluster.user_frames().into_iter().filter(|f| f.seq > start).collect();
+            for k in keys.iter() {
+                let first = frames.iter().find(|f| match &f.parsed {
+                    Parsed::Execute { params, .. } => params.values.first() == Some(&Some(k.clone())),
+                    Parsed::Batch { statements, .. } => matches!(statements.first(), Some(crate::mocknode::BatchStmt::Prepared(_, vals)) if vals.first() == Some(&Some(k.clone()))),
+                    _ => false,
+                });
+                if let Some(f) = first {
+                    if replicas(&nodes, &shape.strat, token_of(k)).contains(&f.node) {
+                        at_replica += 1;
+                    }
+                }
+            }
+        }
+        if marks == 0 || tab_known == 0 || (api_batch && !bfirst_prepared) || schema == 0 {
             // no partition key / a table the metadata does not know / a batch whose first statement is not prepared:
             // not token-aware, nothing of the routing may be judged - but every request must have been sent
             let sent = cluster
@@ -584,7 +715,18 @@ pub fn run(words: &[&str], ctx: &mut Ctx) -> String {
                 continue;
             };
             let tok = token_of(k);
-            let reps = replicas(&nodes, &shape.strat, tok);
+            let reps_all = replicas(&nodes, &shape.strat, tok);
+            if down.is_some_and(|d| reps_all.contains(&d)) {
+                down_hit += 1;
+            }
+            // `down=<node>`: that node is a replica nobody can reach - "if a replica of the key's token is reachable among
+            // the nodes the configuration permits, the first attempt goes to such a replica": the REACHABLE replicas, in
+            // ring order (for an LWT: the first reachable one)
+            let reps: Vec<usize> = reps_all.iter().copied().filter(|r| Some(*r) != down).collect();
+            if Some(f.node) == down {
+                ctx.fail(format!("e2e route: key #{}: a frame is recorded at node {} after it was stopped", i, f.node));
+                continue;
+            }
             let want: Vec<usize> = if pref > 0 {
                 let dc = Shape::dc_name(pref as usize - 1);
                 let local: Vec<usize> = reps.iter().copied().filter(|r| nodes[*r].dc == dc).collect();
@@ -690,6 +832,8 @@ pub fn run(words: &[&str], ctx: &mut Ctx) -> String {
         if pages == 2 {
             return format!("route keys={} replica={} shard={} noconn={} failed={} restarts={} page2={}", total_keys, at_replica, at_shard, unjudged, failed, restarts.len(), page2);
         }
-        format!("route keys={} replica={} shard={} noconn={} failed={} restarts={}", total_keys, at_replica, at_shard, unjudged, failed, restarts.len())
+        // `down=`: hit = keys with the stopped node among their replicas; `schema=0`: replica = an observation (see above)
+        let extra = format!("{}{}", down.map(|d| format!(" down={} hit={}", d, down_hit)).unwrap_or_default(), if schema == 0 { " schema=0(observed-only)" } else { "" });
+        format!("route keys={} replica={} shard={} noconn={} failed={} restarts={}{}", total_keys, at_replica, at_shard, unjudged, failed, restarts.len(), extra)
     })
 }
